@@ -105,7 +105,14 @@ func (s *session) loopWrite() {
 		case req = <-s.processingReqs:
 		}
 
-		req.Wait()
+		// wait for the response, but not longer than the session lives: a
+		// backend may never answer, and whoever closes the connection
+		// (the client, or the listener when it is stopped) waits for us.
+		select {
+		case <-req.done:
+		case <-s.quit:
+			return
+		}
 		// TODO(kirk91): abstract response
 		resp := req.Response()
 		if err = s.enc.Encode(resp); err != nil {
